@@ -15,7 +15,17 @@ Explored on every run (random stream AND a deterministic stress catalogue, see s
     partial tuples, chains over views), mapped to repeat-free position lists of the flattened array;
   * matrix signals whose sensitivities are DyadCarrier objects: modules that produce DyadCarriers, modules that hand the
     received object through unchanged (to one / two inputs), modules that transform it (scale, transpose, A.T @ d @ B.T),
-    DyadCarrier seeds, DyadCarrier contributions into 2-D slices; compared through todense().
+    DyadCarrier seeds, DyadCarrier contributions into 2-D slices; compared through todense();
+  * construction HISTORIES (Model/NetBuild.v; Coq replays the append() calls and evaluates the model on the object they
+    produce): every inner Network filled before / after it is placed in its parent (post-order, breadth-first, depth-first,
+    random interleavings), evaluations of the partial network between append() calls, shadow networks that share the
+    module objects (copy(), a flat Network over the same modules, Network(*inner.mods)) evaluated in between, two design
+    iterations, and a pristine reference (the same graph built in one constructor call from fresh objects);
+  * modules without outputs (sinks; modules that hand out sensitivities of their own) and without inputs (constants),
+    seeds on signals no module touches;
+  * user-defined sensitivity types on signals reached along several paths: a class with __iadd__, a sparse class whose
+    add_sensitivity() works in place and returns None, a lazy-sum class whose add_sensitivity() returns self; seeds of
+    these types; aliasing modules handing them through; observed through the class's own dense view.
 """
 import os, io, json, glob, copy, contextlib
 from fractions import Fraction
@@ -24,7 +34,7 @@ import vlib
 from vlib import zl, zlit
 
 HEADER = '''From Coq Require Import ZArith List Bool.
-From Pymoto Require Import Base.Num Base.Cmp Model.Net.
+From Pymoto Require Import Base.Num Base.Cmp Model.Net Model.NetBuild.
 Import ListNotations.
 Definition csame (a b : list (option (list Z))) : bool := list_eqb (option_eqb Zl_eqb) a b.
 Definition shapes_okb (dims : nat -> nat) (c : list (option (list Z))) : bool :=
@@ -36,6 +46,23 @@ Definition L (i o : list nat) (n : list bool) (b : list (nat * nat * list (list 
 Definition sens_case (N : nat) (dl : list nat) (s : stree Z) (seeds expected : list (option (list Z))) : bool :=
   net_ok N (dims_of dl) s && shapes_okb (dims_of dl) seeds &&
   csame (show_c N (bwd_node (dims_of dl) (to_node s) (cenv_of seeds))) expected.
+(* the same for a network put together by a history of append() calls: Coq replays the history (NetBuild.v) *)
+Definition P (i : list ref) (o : list nat) (l : lin Z) : @spec Z := (i, o, l).
+Definition hist_case (N : nat) (dl : list nat) (pool : list (option (obj (@spec Z)))) (ops : list bop)
+           (seeds expected : list (option (list Z))) : bool :=
+  match sbuilt ops pool with
+  | Some o => sens_case N dl (obj_stree o) seeds expected
+  | None => false
+  end.
+(* networks containing modules that hand out sensitivities of their own (not adjoint pairs: outside net_ok); the wiring
+   discipline is checked, then model == implementation *)
+Definition raw_case (N : nat) (dl : list nat) (pool : list (option (obj (module Z)))) (ops : list bop)
+           (seeds expected : list (option (list Z))) : bool :=
+  match mbuilt ops pool with
+  | Some o => wf_net (flatten (obj_node o)) && below N (flatten (obj_node o)) && shapes_okb (dims_of dl) seeds &&
+              csame (show_c N (bwd_obj (dims_of dl) o (cenv_of seeds))) expected
+  | None => false
+  end.
 (* states of all signals after response() (graphs of linear modules) *)
 Definition state_case (N : nat) (s : stree Z) (init expected : list (list Z)) : bool :=
   Zll_eqb (show_t N (fwd_node (to_node s) (env_of init))) expected.
@@ -321,7 +348,7 @@ def rand_levels(rng, shape, stats):
 
 
 def is_nonlinear(m):
-    return m['kind'] in ('sq', 'mul') or (m['kind'] == 'einsum' and ',' in m['expr'])
+    return m['kind'] in ('sq', 'mul', 'const') or (m['kind'] == 'einsum' and ',' in m['expr'])
 
 
 PT_VALUES = [True, True, 0.0, 10.0, 0, 1e9, False]
@@ -598,6 +625,125 @@ def gen_case(rng, stats):
     return case
 
 
+# ----------------------------------------------------------------------------- construction histories
+def tree_node(case, path):
+    t = case['tree']
+    for k in path:
+        t = tree_items(t)[k]
+    return t
+
+
+def tree_paths(case):
+    """all members of all networks of the tree in pre-order: (path, node); the outer network is path ()"""
+    out = []
+
+    def go(t, p):
+        for k, x in enumerate(tree_items(t)):
+            out.append((p + (k,), x))
+            if not isinstance(x, int):
+                go(x, p + (k,))
+    go(case['tree'], ())
+    return out
+
+
+def make_history(case, order, rng=None, every=0, shadows=(), p_eval=0.0, p_shadow=0.0):
+    """the order of the append() calls that put the network together (members of one network in member order, any
+    interleaving between networks).  'post': every inner network is filled before it is placed in its parent;
+    'bfs': every network receives all its members while its inner networks are still empty, these are filled afterwards;
+    'dfs': an inner network is placed (empty) in its parent and filled right away, before the next sibling arrives;
+    'random': random interleaving.  ['e'] = the partial outer network is evaluated (one design iteration) at that
+    moment, ['s', kind] = a shadow network sharing the module objects is built and evaluated."""
+    nets = [()] + [p for p, x in tree_paths(case) if not isinstance(x, int)]
+    nchild = {p: len(tree_items(tree_node(case, p))) for p in nets}
+    ev = []
+    if order == 'post':
+        def go(p):
+            for k in range(nchild[p]):
+                c = p + (k,)
+                if c in nchild:
+                    go(c)
+                ev.append(['a', list(c)])
+        go(())
+    elif order == 'dfs':
+        def go(p):
+            for k in range(nchild[p]):
+                c = p + (k,)
+                ev.append(['a', list(c)])
+                if c in nchild:
+                    go(c)
+        go(())
+    elif order == 'bfs':
+        queue = [()]
+        while queue:
+            p = queue.pop(0)
+            for k in range(nchild[p]):
+                c = p + (k,)
+                ev.append(['a', list(c)])
+                if c in nchild:
+                    queue.append(c)
+    elif order == 'random':
+        nxt = {p: 0 for p in nets}
+        while True:
+            todo = [p for p in nets if nxt[p] < nchild[p]]
+            if not todo:
+                break
+            p = rng.choice(todo)
+            ev.append(['a', list(p + (nxt[p],))])
+            nxt[p] += 1
+            if rng.random() < p_eval:
+                ev.append(['e'])
+            if rng.random() < p_shadow:
+                ev.append(['s', rng.choice(SHADOWS)])
+    else:
+        raise ValueError(order)
+    if every or shadows:
+        out, sh = [], list(shadows)
+        for i, e in enumerate(ev):
+            out.append(e)
+            if every and (i + 1) % every == 0:
+                out.append(['e'])
+                if sh:
+                    out.append(['s', sh.pop(0)])
+        ev = out + [['s', k] for k in sh]
+    return ev
+
+
+def coq_pool(case, states):
+    """pool of objects and Attach operations of Model/NetBuild.v for the history of the case (without one: every
+    network filled before it is nested).  raw: leaves are modules (a sensitivity-injecting module is not a block-matrix
+    module), else block-matrix specs."""
+    raw = any(m['kind'] == 'inject' for m in case['modules'])
+    leaves = []
+    for m in case['modules']:
+        refs = '; '.join(coq_ref(case, r) for r in m['ins'])
+        if m['kind'] == 'inject':
+            d = '; '.join('None' if d is None else f'Some {zl(d)}' for d in m['d'])
+            leaves.append(f'OLeaf (injmod [{refs}] [{d}]%Z)')
+            continue
+        blocks, idims, odims, none = jac_blocks(case, m, states)
+        bl = '[' + '; '.join(f'({o}, {i}, {zl(M)}%Z)' for o, i, M in blocks) + ']'
+        L = f"(L {nl(idims)} {nl(odims)} [{'; '.join('true' if b else 'false' for b in none)}] {bl})"
+        leaves.append(f"OLeaf (linmod [{refs}] {nl(m['outs'])} {L})" if raw else f"OLeaf (P [{refs}] {nl(m['outs'])} {L})")
+    nodes = tree_paths(case)
+    ident = {(): 0}
+    pool = [f"Some (new_net {coq_timing(case.get('net', {}))})"]
+    for i, (pth, x) in enumerate(nodes):
+        ident[pth] = i + 1
+        pool.append(f'Some ({leaves[x]})' if isinstance(x, int) else f'Some (new_net {coq_timing(tree_opts(x))})')
+    loc = {pth: (ident[pth], ()) for pth in ident}
+    ops = []
+    for ev in (case.get('history') or make_history(case, 'post')):
+        if ev[0] != 'a':
+            continue
+        c = tuple(ev[1])
+        r, q = loc[c[:-1]]
+        ops.append(f'Attach {ident[c]} {r} {nl(q)}')
+        for pth in loc:
+            if loc[pth][0] == ident[c]:
+                loc[pth] = (r, q + (c[-1],) + loc[pth][1])
+    return raw, '[' + '; '.join(pool) + ']', '[' + '; '.join(ops) + ']'
+
+
 # ----------------------------------------------------------------------------- deterministic stress catalogue
 def _mat(r, c, k):
     """a fixed r x c matrix of small integers"""
@@ -659,12 +805,22 @@ class CaseBuilder:
         k = len(self.mods)
         return self.mod('sandwich', [r], [[p, q]], [odyad], A=_mat(p, n, k), B=_mat(m, q, k + 2))
 
-    def case(self, seeds, tree=None, net=None, seed_uv=None):
+    def acc(self, s, kind):
+        """signal s carries sensitivities of the user-defined type `kind` (see ACC)"""
+        self.sigs[s]['acc'] = kind
+        return s
+
+    def case(self, seeds, tree=None, net=None, seed_uv=None, history=None):
+        if history is not None:
+            tmp = dict(tree=list(range(len(self.mods))) if tree is None else tree)
+            history = make_history(tmp, **history) if isinstance(history, dict) else history
         c = dict(signals=copy.deepcopy(self.sigs), sources=dict(self.sources), modules=copy.deepcopy(self.mods),
                  tree=list(range(len(self.mods))) if tree is None else tree,
                  seeds={str(k): list(v) for k, v in seeds.items()})
         if net:
             c['net'] = net
+        if history is not None:
+            c['history'] = history
         if seed_uv:
             c['seed_uv'] = {str(k): v for k, v in seed_uv.items()}
             for k, uv in seed_uv.items():
@@ -833,14 +989,228 @@ def stress_cases():
         g4 = b.bilin(b.ref(u, (None, 2, S_(None))), 1)
         return {g0: [1, 2], g1: [-1], g2: [1, 1], g3: [2, 1], g4: [1]}, None
     dy('into-2d-slices', d_slices)
+
+    # ---- construction histories: the only seeded outputs are produced by modules of inner networks
+    def h_two_paths(b):         # y = x*x; inner: z = L y, g = y*z (y reaches g along two paths)
+        x = b.src((3,))
+        y = b.mod('sq', [x], [(3,)])
+        z = b.lin([y], [(3,)])
+        g = b.mod('mul', [y, z], [(3,)])
+        return {g: [1, 1, 1]}, [0, [1, 2]]
+
+    def h_three_levels(b):      # outer[a, mid[b, deep[c, d]], e]: seeds on d's output and on e's
+        x, p_ = b.src((3,)), b.src((2,))
+        a = b.lin([x, p_], [(2,)])
+        c1 = b.lin([a, b.ref(x, [0, 2])], [(2,)])
+        c2 = b.lin([c1, a], [(2,)])
+        d1, d2 = b.lin([c2, c1], [(1,), (2,)])
+        e = b.lin([a], [(2,)])
+        return {d2: [1, -1], e: [0, 1]}, [0, dict(mods=[1, dict(mods=[2, 3], print_timing=True)]), 4]
+
+    def h_deep_only(b):         # the same shape of tree, only the deepest output is seeded; an empty inner network
+        x = b.src((2, 2))
+        a = b.lin([x], [(2,)])
+        c1 = b.lin([a, b.ref(x, (S_(None), 1))], [(2,)])
+        c2 = b.mod('sq', [c1], [(2,)])
+        d1 = b.lin([c2, a, a], [(2,)])
+        return {d1: [1, 2]}, [0, [[], 1, [2, [3]]]]
+
+    def h_siblings(b):          # two sibling inner networks reading the same source, nothing outside them
+        x = b.src((3,))
+        a1 = b.lin([x], [(2,)])
+        a2 = b.lin([a1, x], [(1,)])
+        b1 = b.lin([b.ref(x, S_(0, 2))], [(2,)])
+        b2 = b.lin([b1, a1], [(2,)])
+        return {a2: [2], b2: [1, 1]}, [dict(mods=[0, 1], print_timing=0.0), [2, 3]]
+    for hname, fn in [('two-paths', h_two_paths), ('three-levels', h_three_levels), ('deep-only', h_deep_only),
+                      ('siblings', h_siblings)]:
+        for order in ['post', 'bfs', 'dfs']:
+            for mode, extra in [('plain', {}), ('evaluated-in-between', dict(every=1)),
+                                ('shadows', dict(every=2, shadows=list(SHADOWS)))]:
+                b = CaseBuilder()
+                seeds, tree = fn(b)
+                out.append((f'history:{hname}:{order}:{mode}', b.case(seeds, tree=tree, history=dict(order=order, **extra),
+                                                                      net=dict(print_timing=True) if mode == 'shadows' else None)))
+
+    # ---- modules without outputs / without inputs, seeds on signals no module touches
+    def z_inject_unseeded(b):   # a module hands out a sensitivity on an intermediate signal; nothing is seeded
+        x = b.src((3,))
+        a = b.lin([x], [(2,)])
+        b.mod('inject', [a], [], d=[[2, -1]])
+        return {}, None
+    def z_inject_inner(b):      # the same inside an inner network none of whose outputs is seeded; another output is
+        x = b.src((3,))
+        a = b.lin([x], [(2,)])
+        c = b.lin([a], [(2,)])
+        b.mod('inject', [c, b.ref(x, [2, 0])], [], d=[None, [1, 3]])
+        f = b.lin([a], [(1,)])
+        return {f: [1]}, [0, [1, 2], 3]
+    def z_inject_source(b):     # straight onto a source and onto a slice of it, next to an ordinary path
+        x = b.src((2, 3))
+        b.mod('inject', [x, b.ref(x, (1, S_(0, 2)))], [], d=[[1, 0, 2, 0, -1, 1], [3, 3]])
+        a = b.lin([x], [(2,)])
+        return {a: [1, 1]}, [[0], 1]
+    def z_sink(b):              # a block-matrix module without outputs returns zero sensitivities; nothing seeded
+        x, p_ = b.src((3,)), b.src((2,))
+        a = b.lin([x], [(2,)])
+        b.lin([a, p_], [])
+        return {}, [0, [1]]
+    def z_const(b):             # a module without inputs consumes the sensitivity of its constant output
+        x = b.src((2,))
+        k = b.mod('const', [], [(2,)], v=[2, -1], ret='list')
+        k2 = b.mod('const', [], [(2,)], v=[1, 3], ret='none')
+        g = b.mod('mul', [k, x], [(2,)])
+        h = b.lin([g, k2, x], [(1,)])
+        return {h: [1], k2: [1, 1]}, [[0, 1], 2, 3]
+    def z_untouched(b):         # seeds on signals that are in no sig_in / sig_out list at all, and on a source
+        x, lone = b.src((2,)), b.src((3,))
+        a = b.lin([x], [(2,)])
+        return {lone: [1, 2, 3], x: [1, -1], a: [2, 0]}, None
+    for zname, fn in [('inject-nothing-seeded', z_inject_unseeded), ('inject-inner-unseeded', z_inject_inner),
+                      ('inject-source-and-slice', z_inject_source), ('zero-output-sink', z_sink), ('zero-input-const', z_const),
+                      ('untouched-signals', z_untouched)]:
+        for order in [None, 'bfs']:
+            b = CaseBuilder()
+            seeds, tree = fn(b)
+            out.append((f'zero-io:{zname}:{order}', b.case(seeds, tree=tree, history=dict(order=order, every=2) if order else None)))
+
+    # ---- user-defined sensitivity types on signals reached along several paths
+    def a_fan(b, K):            # x is consumed by three modules (and twice by one of them)
+        x = b.acc(b.src((4,)), K)
+        y0 = b.lin([x], [(1,)], emit=[K])
+        y1 = b.lin([x, x], [(2,)], emit=[K, K])
+        y2 = b.lin([x], [()], emit=[K])
+        f = b.lin([y0, y1, y2], [(1,)])
+        return {f: [1]}, None
+    def a_intermediate(b, K):   # a typed intermediate signal, seeded by the user with an object of the type
+        x = b.src((3,))
+        a = b.acc(b.lin([x], [(2, 2)]), K)
+        c = b.lin([a], [(2,)], emit=[K])
+        d = b.lin([a, c], [(2,)], emit=[K, 0])
+        e = b.lin([c, a], [(1,)], emit=[0, K])
+        return {d: [1, -1], e: [2], a: [1, 0, 0, 2]}, [0, [1, 2], 3]
+    def a_alias(b, K):          # aliasing modules hand the received object on: k = a1 + a2, i = id(k)
+        x = b.src((2,))
+        a1 = b.acc(b.lin([x], [(3,)]), K)
+        a2 = b.acc(b.lin([x], [(3,)]), K)
+        g0 = b.lin([a1], [(1,)], emit=[K])
+        k = b.acc(b.mod('add', [a1, a2], [(3,)]), K)
+        i = b.acc(b.mod('id', [k], [(3,)]), K)
+        g1 = b.lin([i, k], [(2,)], emit=[K, K])
+        g2 = b.lin([a2, a2], [(1,)], emit=[K, K])
+        return {g0: [1], g1: [1, 2], g2: [-1]}, None
+    for aname, fn in [('fan-out', a_fan), ('typed-intermediate-seeded', a_intermediate), ('aliasing-modules', a_alias)]:
+        for K in ACC_KINDS:
+            for order in [None, 'dfs']:
+                b = CaseBuilder()
+                seeds, tree = fn(b, K)
+                out.append((f'acc:{aname}:{K}:{order}', b.case(seeds, tree=tree, history=dict(order=order) if order else None)))
     return out
+
+
+def decorate(rng, case, stats):
+    """widen a random case: user-defined sensitivity types on eligible signals, modules without outputs / inputs, a
+    construction history"""
+    sigs, mods = case['signals'], case['modules']
+    if rng.random() < 0.45:
+        producer = {o: m for m in mods for o in m['outs']}
+        for s_, sg in enumerate(sigs):
+            uses = [(m, i) for m in mods for i, r in enumerate(m['ins']) if r['sig'] == s_]
+            if sg.get('dyad') or not uses or rng.random() < (0.4 if len(uses) == 1 else 0.15):
+                continue
+            if any(m['kind'] != 'lin' or m['ins'][i]['levels'] for m, i in uses):
+                continue
+            if s_ in producer and producer[s_]['kind'] != 'lin':
+                continue
+            K = rng.choice(ACC_KINDS)
+            sg['acc'] = K
+            for m, i in uses:
+                m.setdefault('emit', [0] * len(m['ins']))
+                m.setdefault('decomp', 'rows')
+                m['emit'][i] = K
+            stats(f'acc:{K}:paths={min(len(uses), 3)}')
+    dense = [s_ for s_, sg in enumerate(sigs) if not sg.get('dyad') and not sg.get('acc')]
+    r = rng.random()
+    if r < 0.12 and dense:          # a module that hands out sensitivities of its own, last in the outer network or in the last inner one
+        ins, d = [], []
+        for s_ in rng.sample(dense, min(len(dense), rng.randint(1, 2))):
+            ins.append(dict(sig=s_, levels=None))
+            d.append(None if rng.random() < 0.15 else [rng.randint(-2, 2) for _ in range(size_of(sigs[s_]['shape']))])
+        mods.append(dict(kind='inject', ins=ins, oshapes=[], outs=[], d=d))
+        stats('zero-output:inject')
+    elif r < 0.2 and dense:         # a block-matrix module without outputs
+        ins = [dict(sig=s_, levels=None) for s_ in rng.sample(dense, min(len(dense), rng.randint(1, 2)))]
+        mods.append(dict(kind='lin', ins=ins, oshapes=[], outs=[], none=[int(rng.random() < 0.2) for _ in ins], blocks=[]))
+        stats('zero-output:sink')
+    if r < 0.2 and dense:
+        t = case['tree']
+        while rng.random() < 0.5 and tree_items(t) and not isinstance(tree_items(t)[-1], int):
+            t = tree_items(t)[-1]
+        tree_items(t).append(len(mods) - 1)
+    if rng.random() < 0.35:
+        order = rng.choice(['post', 'bfs', 'dfs', 'random', 'random'])
+        case['history'] = make_history(case, order, rng=rng, p_eval=0.2, p_shadow=0.1,
+                                       every=(0 if order == 'random' else rng.choice([0, 0, 1, 3])))
+        stats('history:' + order)
+    return case
+
+
+# ----------------------------------------------------------------------------- user-defined sensitivity types
+class IaddSens:
+    """(a) accumulates through __iadd__ only (the `+=` branch of Signal.add_sensitivity)"""
+    def __init__(self, a):
+        self.a = np.array(a, dtype=float)
+
+    def __iadd__(self, other):
+        self.a = self.a + other.a
+        return self
+
+    def dense_view(self):
+        return self.a
+
+
+class SparseSens:
+    """(b) {flat position: value}; its own add_sensitivity() merges in place and returns None"""
+    def __init__(self, a):
+        a = np.asarray(a, dtype=float)
+        self.shape = a.shape
+        self.entries = {i: float(v) for i, v in enumerate(a.ravel()) if v != 0}
+
+    def add_sensitivity(self, other):
+        for k, v in other.entries.items():
+            self.entries[k] = self.entries.get(k, 0.0) + v
+
+    def dense_view(self):
+        d = np.zeros(size_of(self.shape))
+        for k, v in self.entries.items():
+            d[k] += v
+        return d.reshape(self.shape)
+
+
+class LazySumSens:
+    """(c) a list of terms summed on demand; its own add_sensitivity() returns self"""
+    def __init__(self, a):
+        self.terms = [np.array(a, dtype=float)]
+
+    def add_sensitivity(self, other):
+        self.terms.extend(np.array(t) for t in other.terms)
+        return self
+
+    def dense_view(self):
+        return sum(self.terms[1:], self.terms[0])
+
+
+ACC = {'iadd': IaddSens, 'none': SparseSens, 'self': LazySumSens}
+ACC_KINDS = ['iadd', 'none', 'self']
 
 
 # ----------------------------------------------------------------------------- the real network
 def make_module_classes(pym):
     def dense(w):
-        """a received sensitivity as numbers (DyadCarriers are expanded)"""
-        return w.todense() if isinstance(w, pym.DyadCarrier) else w
+        """a received sensitivity as numbers (DyadCarriers are expanded, user-defined types give their dense view)"""
+        if isinstance(w, pym.DyadCarrier):
+            return w.todense()
+        return w.dense_view() if hasattr(w, 'dense_view') else w
 
     def flat(x):
         return np.asarray(dense(x), dtype=float).ravel()
@@ -878,8 +1248,34 @@ def make_module_classes(pym):
             for o, i, M in self.blocks:
                 if ws[o] is not None and not self.none[i]:
                     gs[i] = gs[i] + M.reshape(flat(ws[o]).size, gs[i].size).T @ flat(ws[o])
-            return [None if self.none[i] else (as_dyads(g.reshape(sh), self.decomp) if self.emit[i] else g.reshape(sh))
-                    for i, (g, sh) in enumerate(zip(gs, shapes))]
+            def wrap(g, e):
+                if e in ACC:
+                    return ACC[e](g)
+                return as_dyads(g, self.decomp) if e else g
+            return [None if self.none[i] else wrap(g.reshape(sh), self.emit[i]) for i, (g, sh) in enumerate(zip(gs, shapes))]
+
+    class InjectMod(pym.Module):
+        """no outputs; hands out fixed sensitivities of its own to its inputs (None for some)"""
+        def _prepare(self, d):
+            self.d = d
+
+        def _response(self, *xs):
+            return []
+
+        def _sensitivity(self):
+            return [None if d is None else np.array(d, dtype=float).reshape(np.shape(s.state))
+                    for d, s in zip(self.d, self.sig_in)]
+
+    class ConstMod(pym.Module):
+        """no inputs; its output is a constant, its _sensitivity consumes what it receives"""
+        def _prepare(self, v, shape, ret):
+            self.v, self.shape, self.ret = v, tuple(shape), ret
+
+        def _response(self):
+            return np.array(self.v, dtype=float).reshape(self.shape) if len(self.shape) else float(self.v[0])
+
+        def _sensitivity(self, dy):
+            return [] if self.ret == 'list' else None
 
     class IdMod(pym.Module):
         """passes its input object on and returns the very sensitivity object it receives"""
@@ -953,7 +1349,7 @@ def make_module_classes(pym):
         def _sensitivity(self, dy):
             return self.sig_in[1].state * dy, self.sig_in[0].state * dy
     return dict(lin=LinMod, id=IdMod, add=AddMod, sq=SqMod, mul=MulMod, scale=ScaleMod, transpose=TransposeMod,
-                sandwich=SandwichMod, bilin=BilinMod, dense=dense)
+                sandwich=SandwichMod, bilin=BilinMod, inject=InjectMod, const=ConstMod, dense=dense)
 
 
 def tree_items(t):
@@ -1000,7 +1396,7 @@ def make_network(pym, members, opts):
     return net
 
 
-def build(pym, classes, case):
+def build(pym, classes, case, on_event=None):
     sigs = [pym.Signal(f's{i}') for i in range(len(case['signals']))]
     for k, v in case['sources'].items():
         sh = tuple(case['signals'][int(k)]['shape'])
@@ -1027,6 +1423,10 @@ def build(pym, classes, case):
             mods.append(classes[k](ins, outs, m['A'], m['B']))
         elif k == 'bilin':
             mods.append(classes[k](ins, outs, m['U'], m['V'], len(m['oshapes'][0]) == 0, m.get('emit', [0])[0]))
+        elif k == 'inject':
+            mods.append(classes[k](ins, outs, m['d']))
+        elif k == 'const':
+            mods.append(classes[k](ins, outs, m['v'], m['oshapes'][0], m.get('ret', 'list')))
         elif k == 'einsum':
             # library modules may also be handed to Network as dictionaries
             mods.append(dict(type='EinSum', sig_in=ins, sig_out=outs, expression=m['expr']) if m.get('as_dict')
@@ -1039,7 +1439,91 @@ def build(pym, classes, case):
 
     def mknet(t, opts):
         return make_network(pym, [mods[x] if isinstance(x, int) else mknet(tree_items(x), tree_opts(x)) for x in t], opts)
-    return sigs, mods, mknet(case['tree'], case.get('net', {}))
+    if not case.get('history'):
+        return sigs, mods, mknet(case['tree'], case.get('net', {}))
+
+    # ---- the network is put together by the recorded sequence of append() calls
+    def kw(o):
+        return dict(print_timing=o['print_timing']) if 'print_timing' in o else {}
+    objs = {(): pym.Network(**kw(case.get('net', {})))}
+
+    def get(p):
+        if p not in objs:
+            x = tree_node(case, p)
+            objs[p] = mods[x] if isinstance(x, int) else pym.Network(**kw(tree_opts(x)))
+        return objs[p]
+    keep = []
+    for ev in case['history']:
+        if ev[0] == 'a':
+            p = tuple(ev[1])
+            parent = get(p[:-1])
+            if len(parent.mods) != p[-1]:
+                raise ValueError(f'history attaches member {p} out of order')
+            parent.append(get(p))
+        elif on_event is not None:
+            on_event(ev, sigs, objs, keep)
+    return sigs, mods, objs[()]
+
+
+def flat_objs(pym, net):
+    for m in net.mods:
+        if isinstance(m, pym.Network):
+            yield from flat_objs(pym, m)
+        else:
+            yield m
+
+
+def evaluable(pym, sigs, net):
+    """can this (partial / shadow) network be evaluated now: every input has a state or is produced earlier inside"""
+    have = {id(sg) for sg in sigs if sg.state is not None}
+    new = set()
+    for m in flat_objs(pym, net):
+        for sg in m.sig_in:
+            while hasattr(sg, 'base') and hasattr(sg, 'slice'):     # SignalSlice (chains): the underlying Signal
+                sg = sg.base
+            if id(sg) not in have and id(sg) not in new:
+                return False
+        new |= {id(sg) for sg in m.sig_out}
+    return True
+
+
+def one_pass(pym, case, sigs, net):
+    """one design iteration on `net`: response, seeds (on signals that have a state), sensitivity, reset"""
+    net.response()
+    for k in case['seeds']:
+        if sigs[int(k)].state is not None:
+            sigs[int(k)].sensitivity = seed_value(pym, case, k)
+    net.sensitivity()
+    net.reset()
+    for sg in sigs:
+        sg.reset()
+
+
+SHADOWS = ['copy', 'flat', 'inner']
+
+
+def history_event(pym, case, stats=None):
+    """what happens at the 'e' (evaluate the partial outer network) and 's' (build and evaluate a shadow network that
+    shares the module objects) events of a construction history"""
+    def on_event(ev, sigs, objs, keep):
+        root = objs[()]
+        nets = []
+        if ev[0] == 'e':
+            nets = [root]
+        elif ev[1] == 'copy':
+            nets = [root.copy()]
+        elif ev[1] == 'flat':
+            nets = [pym.Network(*list(flat_objs(pym, root)))]
+        elif ev[1] == 'inner':      # every inner network that exists so far, re-wrapped over the same member objects
+            nets = [pym.Network(*o.mods) for p, o in sorted(objs.items()) if p != () and isinstance(o, pym.Network) and o.mods]
+        keep.extend(nets)
+        for net in nets:
+            ok = evaluable(pym, sigs, net)
+            if stats:
+                stats(f"history-event:{ev[0]}{':' + ev[1] if len(ev) > 1 else ''}:{'evaluated' if ok else 'not-evaluable'}")
+            if ok:
+                one_pass(pym, case, sigs, net)
+    return on_event
 
 
 def seed_value(pym, case, k):
@@ -1056,6 +1540,8 @@ def seed_value(pym, case, k):
         for u, w in uv:
             d.add_dyad(np.array(u, dtype=float), np.array(w, dtype=float))
         return d
+    if sg.get('acc'):               # the user seeds an object of the user-defined sensitivity type
+        return ACC[sg['acc']](np.array(v, dtype=float).reshape(sh))
     return np.array(v, dtype=float).reshape(sh) if len(sh) else float(v[0])
 
 
@@ -1107,16 +1593,36 @@ def limited(cpu_seconds=2.0, extra_bytes=1 << 30):
             pass
 
 
-def run_impl(pym, classes, case):
+def run_impl(pym, classes, case, stats=None, info=None):
+    def observe(sigs):
+        # DyadCarrier / user-defined sensitivities are observed through their dense view
+        return [None if s.sensitivity is None else flat_ints(classes['dense'](s.sensitivity)) for s in sigs]
     with limited(), contextlib.redirect_stdout(io.StringIO()):         # print_timing reports go nowhere
-        sigs, mods, net = build(pym, classes, case)
+        sigs, mods, net = build(pym, classes, case, on_event=history_event(pym, case, stats))
         net.response()
         states = [None if s.state is None else flat_ints(s.state) for s in sigs]
         for k in case['seeds']:
             sigs[int(k)].sensitivity = seed_value(pym, case, k)
         net.sensitivity()
-    # DyadCarrier sensitivities are observed through todense()
-    sens = [None if s.sensitivity is None else flat_ints(classes['dense'](s.sensitivity)) for s in sigs]
+        sens = observe(sigs)
+        if case.get('history') and info is not None:
+            # further design iterations on the finished network: one with another seed support (every other seed), then
+            # reset, response, all seeds, sensitivity
+            net.reset()
+            for sg in sigs:
+                sg.reset()
+            net.response()
+            for k in sorted(case['seeds'], key=int)[1::2]:
+                sigs[int(k)].sensitivity = seed_value(pym, case, k)
+            net.sensitivity()
+            net.reset()
+            for sg in sigs:
+                sg.reset()
+            net.response()
+            for k in case['seeds']:
+                sigs[int(k)].sensitivity = seed_value(pym, case, k)
+            net.sensitivity()
+            info['second'] = observe(sigs)
     return states, sens
 
 
@@ -1140,6 +1646,8 @@ def jac_blocks(case, m, states):
         return [[v[a] if a == b else 0 for b in range(len(v))] for a in range(len(v))]
     if k == 'lin':
         blocks = [(o, i, M) for o, i, M in m['blocks']]
+    elif k in ('const', 'inject'):
+        blocks = []
     elif k == 'id':
         blocks = [(0, 0, eye(idims[0]))]
     elif k == 'scale':
@@ -1221,12 +1729,18 @@ def opt_list(xs):
 def coq_checks(case, states, sens):
     n = len(case['signals'])
     dims = [size_of(s['shape']) for s in case['signals']]
-    tree = coq_tree(case, states)
     seeds = [case['seeds'].get(str(i)) for i in range(n)]
-    out = [('sens', f"sens_case {n} {nl(dims)} ({tree}) {opt_list(seeds)} {opt_list(sens)}")]
+    raw = any(m['kind'] == 'inject' for m in case['modules'])
+    if raw or case.get('history'):
+        raw, pool, ops = coq_pool(case, states)
+        out = [('sens', f"{'raw_case' if raw else 'hist_case'} {n} {nl(dims)} {pool} {ops} {opt_list(seeds)} {opt_list(sens)}")]
+        if raw:
+            return out
+    else:
+        out = [('sens', f"sens_case {n} {nl(dims)} ({coq_tree(case, states)}) {opt_list(seeds)} {opt_list(sens)}")]
     if not any(is_nonlinear(m) for m in case['modules']):
         init = [case['sources'].get(str(i), []) for i in range(n)]
-        out.append(('state', f"state_case {n} ({tree}) {zl(init)}%Z {zl([s if s is not None else [] for s in states])}%Z"))
+        out.append(('state', f"state_case {n} ({coq_tree(case, states)}) {zl(init)}%Z {zl([s if s is not None else [] for s in states])}%Z"))
     return out
 
 
@@ -1262,6 +1776,12 @@ def oracle_dense(case, states, sens):
     for k, w in case['seeds'].items():
         if int(k) in T:
             g = g + np.array(w, dtype=object).dot(T[int(k)])
+    for m in flat_mods(case):           # what a module without outputs hands out counts like a seed on its inputs
+        if m['kind'] == 'inject':
+            for r, d in zip(m['ins'], m['d']):
+                if d is not None:
+                    pos, _, _ = ref_positions(tuple(case['signals'][r['sig']]['shape']), r['levels'] or [])
+                    g = g + np.array(d, dtype=object).dot(T[r['sig']][pos, :])
     bad = []
     for s in srcs:
         exp = [int(x) for x in g[off[s]:off[s] + dims[s]]]
@@ -1283,7 +1803,7 @@ def oracle_fd(pym, classes, case, sens):
     dims = [size_of(s['shape']) for s in case['signals']]
 
     with limited(), contextlib.redirect_stdout(io.StringIO()):
-        sigs, _, net = build(pym, classes, case)
+        sigs, mobjs, net = build(pym, classes, case)
 
     def phi(s, k, j):
         for key, v in case['sources'].items():
@@ -1298,6 +1818,11 @@ def oracle_fd(pym, classes, case, sens):
                 return None
         for key, w in case['seeds'].items():
             tot += sum(int(a) * int(b) for a, b in zip(flat_ints(sigs[int(key)].state), w))
+        for m, mo in zip(case['modules'], mobjs):
+            if m['kind'] == 'inject':
+                for d, sg in zip(m['d'], mo.sig_in):
+                    if d is not None:
+                        tot += sum(int(a) * int(b) for a, b in zip(flat_ints(sg.state), d))
         return tot
     bad = []
     for s in sorted(int(k) for k in case['sources']):
@@ -1428,8 +1953,28 @@ def features(case):
         f.add('print-timing')
     if any(sg.get('dyad') for sg in case['signals']):
         f.add('dyad-signal')
-    if any(any(m.get('emit', [])) for m in case['modules']):
+    if any(any(e == 1 for e in m.get('emit', [])) for m in case['modules']):
         f.add('dyad-emitter')
+    for sg in case['signals']:
+        if sg.get('acc'):
+            f.add('acc-type:' + sg['acc'])
+    for m in case['modules']:
+        if not m['outs']:
+            f.add('zero-output:' + m['kind'])
+        if not m['ins']:
+            f.add('zero-input')
+    if case.get('history'):
+        f.add('history')
+        if any(e[0] == 'e' for e in case['history']):
+            f.add('history:evaluated-in-between')
+        if any(e[0] == 's' for e in case['history']):
+            f.add('history:shadow-networks')
+        first = {}
+        for i, e in enumerate(case['history']):
+            if e[0] == 'a':
+                first[tuple(e[1])] = i
+        if any(len(pth) > 1 and first[pth] > first[pth[:-1]] for pth in first):
+            f.add('history:filled-after-nesting')
     if any(len(sg['shape']) >= 2 and any(r['sig'] == i and r['levels'] for m in case['modules'] for r in m['ins'])
            for i, sg in enumerate(case['signals'])):
         f.add('nd-slice')
@@ -1452,7 +1997,10 @@ def run(ctx):
     ctx.rule = ('fixed cases first (corpus/C02/*.json, then the deterministic stress catalogue stress_cases(): every print_timing '
                 'value x construction form on flat and nested depth>=2 networks, every index form of INDEX_CATALOGUE on 1-/2-/3-D '
                 'signals in a fan-out/fan-in network, DyadCarrier pass-through / transformation / later accumulation / seeds / '
-                'slices); then random module DAGs (2-9 modules, 1-4 sources, signal shapes () / (n<=4) / (a<=3, b<=4) / '
+                'slices; construction histories (post-order / breadth-first / depth-first x plain / evaluated after every append / '
+                'shadow networks) on 4 nested graphs whose only seeds sit on outputs of inner networks; modules without outputs '
+                '(injecting, sink) / without inputs, untouched seeded signals; user-defined sensitivity types (__iadd__, '
+                'add_sensitivity returning None / self) x fan-out, seeded typed intermediate, aliasing modules); then random module DAGs (2-9 modules, 1-4 sources, signal shapes () / (n<=4) / (a<=3, b<=4) / '
                 '(a<=2, b<=3, c<=3)) from one seeded RNG, 30% of them in a matrix mode biased to 2-D signals and DyadCarrier-typed '
                 'sensitivities: user block-matrix modules (incl. None-returning inputs, duplicate blocks, 2 outputs, sensitivities '
                 'handed over as DyadCarrier in row or column dyads), aliasing identity/add modules (return the received object for '
@@ -1465,7 +2013,10 @@ def run(ctx):
                 'chains over views); random nesting into inner Networks (depth <= 4, empty ones included); every Network '
                 '(outer and inner) draws print_timing from {absent, False, True, 0, 0.0, 10.0, 1e9} and its construction form '
                 'from {positional, list, tuple, append, call, split append}; seeds on random subsets of outputs/intermediates/'
-                'sources (DyadCarrier seeds on DyadCarrier-typed signals).  A case is non-trivial when some seed reaches a '
+                'sources (DyadCarrier seeds on DyadCarrier-typed signals); 30%: eligible signals (whole references, block-matrix '
+                'consumers) carry a user-defined sensitivity type; 12% / 8%: a sensitivity-injecting / sink module without outputs; '
+                '35%: a construction history (post / bfs / dfs / random interleaving of the append() calls, evaluations of the '
+                'partial network and shadow networks in between, two design iterations).  A case is non-trivial when some seed reaches a '
                 'source through at least one module; distinct by the full case description.  Malformed stream (~10%): '
                 'out-of-protocol mini networks (wrong number of responses / sensitivities, wrong-shaped contribution to a present '
                 'sensitivity or through a slice, slice position outside the base): only the exception class is compared with '
@@ -1484,6 +2035,15 @@ def run(ctx):
                         'DyadCarrier or only dense contributions (DyadCarrier.__iadd__ accepts DyadCarriers only; a dense '
                         'contribution after a DyadCarrier raises AttributeError), and DyadCarrier-typed signals are not sliced '
                         '(DyadCarrier.__setitem__ only zeroes rows/columns); matrix-valued slices of dense signals take both',
+                        'user-defined sensitivity types are observed through their own dense view; signals carrying them are '
+                        'referenced whole and all their contributions have that type (a SignalSlice allocates base.state * 0, an '
+                        'ndarray); Model/NetBuild.v sig_add has the three accumulation branches, the network model the common value',
+                        'a module without outputs that hands out sensitivities of its own is not an adjoint pair: such cases are '
+                        'compared with the model (raw_case) and with the oracle (its contributions count as seeds on its inputs), '
+                        'the main theorem does not speak about them',
+                        'evaluations of partial networks and of shadow networks between append() calls are not in the Coq model '
+                        '(it has no state between evaluations); that they leave no trace is what correspondence and the '
+                        'pristine-reference oracle observe',
                         'what print_timing prints (and the clock) is not modelled; the model has the two loops of '
                         'Network.response / Network.sensitivity selected by `print_timing is not False`']
     ctx.trusted += ['Print Assumptions: all C02 theorems are closed under the global context (no axioms)',
@@ -1524,9 +2084,10 @@ def run(ctx):
             continue
         for attempt in range(20):
             if name.startswith('gen:') and not replaying:
-                case = gen_case(ctx.rng, stats)
+                case = decorate(ctx.rng, gen_case(ctx.rng, stats), stats)
+            info = {}
             try:
-                states, sens = run_impl(pym, classes, case)
+                states, sens = run_impl(pym, classes, case, stats=stats, info=info)
             except Exception as e:      # a valid case must run
                 nlimit += isinstance(e, (ImplLimit, MemoryError))
                 ctx.violation('impl-violates', 'Network.response/sensitivity', 'a well-formed graph evaluates without exception',
@@ -1543,6 +2104,10 @@ def run(ctx):
                 break
         if states is None:
             continue
+        if 'second' in info and info['second'] != sens:
+            ctx.violation('impl-violates', 'Network.sensitivity', 'second design iteration (reset, response, seeds, sensitivity) '
+                          'leaves the same sensitivities', 'construction history', dict(name=name, case=case),
+                          expected=sens, got=info['second'])
         ran.append((name, case, states, sens))
         ft = features(case)
         for x in ft:
@@ -1588,6 +2153,20 @@ def run(ctx):
 
     # ---- implementation-side oracle: total derivative by dense forward mode (exact) and by central differences
     for name, case, states, sens in ran:
+        if case.get('history'):
+            # pristine reference: the same graph built in one go (fresh signal / module / network objects, every inner
+            # network complete before it is handed to its parent), evaluated once
+            ctx.search_evaluations += 1
+            ref_case = {k: v for k, v in case.items() if k != 'history'}
+            try:
+                ref = run_impl(pym, classes, ref_case)
+            except Exception as e:
+                ref = repr(e)[:300]
+            if ref != (states, sens):
+                ctx.violation('impl-violates', 'Network.append', 'states and sensitivities do not depend on the order of the '
+                              'append() calls', 'construction history', dict(name=name, case=case),
+                              expected=ref, got=[states, sens])
+                continue
         ctx.search_evaluations += 1
         bad = oracle_dense(case, states, sens)
         if bad:
@@ -1614,6 +2193,14 @@ def model_expr(case, states, kind):
     n = len(case['signals'])
     dims = [size_of(s['shape']) for s in case['signals']]
     tree = coq_tree(case, states)
+    if kind == 'sens' and (case.get('history') or any(m['kind'] == 'inject' for m in case['modules'])):
+        seeds = [case['seeds'].get(str(i)) for i in range(n)]
+        raw, pool, ops = coq_pool(case, states)
+        if raw:
+            return (f"(match mbuilt {ops} {pool} with Some o => Some (wf_net (flatten (obj_node o)), "
+                    f"show_c {n} (bwd_obj (dims_of {nl(dims)}) o (cenv_of {opt_list(seeds)}))) | None => None end)")
+        return (f"(match sbuilt {ops} {pool} with Some o => Some (net_ok {n} (dims_of {nl(dims)}) (obj_stree o), "
+                f"show_c {n} (bwd_node (dims_of {nl(dims)}) (to_node (obj_stree o)) (cenv_of {opt_list(seeds)}))) | None => None end)")
     if kind == 'sens':
         seeds = [case['seeds'].get(str(i)) for i in range(n)]
         return (f"(net_ok {n} (dims_of {nl(dims)}) ({tree}), "
